@@ -5,6 +5,7 @@
 -/
 import Yae.SExp
 import Yae.Model.Lexer
+import Yae.Spec.Regex
 namespace Yae.Driver
 open Yae SExp
 
@@ -30,6 +31,25 @@ def handleLex : SExp → Option SExp
       | .ok ts => pure (.list (.atom "ok" :: ts.map tokToSExp))
       | .error .syntax => pure (.list [.atom "err", .atom "syntax"])
       | .error .fuel => pure (.list [.atom "err", .atom "fuel"])
+  | _ => none
+
+/-- `(regex <k> <$s>)`: the formal semantics of the lexer's regular expressions, asked directly:
+`k` = 0…9 the ten literal patterns in lexicon order (`FindString`: rune length of the anchored
+leftmost-first match, the empty match counting as none), 10 = `keywordPostfix.MatchString`,
+11 = `idReg.MatchString`.  Answer `(ok n)`, `(none)`, `(ok true|false)`. -/
+def regexPats : List Pat := [.floatA, .floatB, .bin, .hex, .oct, .int, .str, .raw, .time, .sym]
+
+def handleRegex : SExp → Option SExp
+  | .list [.atom "regex", k, s] => do
+      let k ← decNat k
+      let s ← decStr s
+      if k == 10 then pure (.list [.atom "ok", .atom (toString (reKeywordPostfix.matchPrefix s.toList))])
+      else if k == 11 then pure (.list [.atom "ok", .atom (toString (reIdent.matchWhole s.toList))])
+      else
+        let p ← regexPats[k]?
+        match (reOf p).find s.toList with
+        | some n => pure (.list [.atom "ok", .atom (toString n)])
+        | none => pure (.list [.atom "none"])
   | _ => none
 
 end Yae.Driver
